@@ -250,7 +250,7 @@ def run(tier):
     except Unsupported as e:
         reg.undecided(PID + "/executor/unsupported", "unsupported", "executor", str(e))
     for ob in list(reg.obligations):
-        if not ob.discharged and ob.result != "unknown":
+        if not ob.discharged and ob.kind != "cover":
             e = R.kf.match(PID, ob.name)
             if e:
                 reg.obligations.remove(ob)
